@@ -1,6 +1,6 @@
 (* Dispatch entries for whole rule headers and directory sentinels. *)
 From BFG Require Import Base.Chars Base.Sx Shell.PosixQuote Make.MakeWrite Make.MakeRead Make.MakeNames Make.MakeCall
-  Make.MakeHeader Make.MakeTable Make.MakeCallTable.
+  Make.MakeHeader Make.MakeDepfile Make.MakeTable Make.MakeCallTable.
 From Coq Require Import String.
 Local Open Scope N_scope.
 
@@ -29,6 +29,9 @@ Definition table : list (string * (sx -> sx)) := [
   ("make.parse_rule_header", fun a => sx_opt sx_triple (parse_rule_header (un_str (nth_sx 0 a))));
   ("make.parse_rule_words", fun a => sx_opt sx_triple (parse_rule_words (un_str (nth_sx 0 a))));
   ("make.ar_free", fun a => sx_bool (ar_free (un_strs (nth_sx 0 a))));
+  (* us output dirs makeify *)
+  ("make.depfile_text", fun a => sx_str
+      (depfile_text (cls_of (nth_sx 0 a)) (un_str (nth_sx 1 a)) (un_strs (nth_sx 2 a)) (un_bool (nth_sx 3 a))));
   ("make.patsubst_dir", fun a => sx_str (patsubst_dir_text (un_str (nth_sx 0 a))));
   ("make.sentinel_of", fun a => sx_str (sentinel_of (un_str (nth_sx 0 a))))
 ]%string.
